@@ -21,6 +21,7 @@ import contextlib
 import io
 import itertools
 import logging
+import re
 import shutil
 import tempfile
 import warnings
@@ -49,6 +50,162 @@ ASSUMPTIONS = [
 ]
 
 logging.disable(logging.CRITICAL)
+
+
+# ============================================================================================ step 0: translator
+# The range checks of Chunk.__init__ (strax/chunk.py) are scalar decision logic: `start < 0`, `start > end`, and — only if
+# the data has rows — `data[0]['time'] < start`, `endtime(data[-N:]).max() > end`.  Their Lean definition
+# (Generated/ChunkInitRange.lean) is regenerated from the AST of the CURRENT source on every run, and Props/C12.lean proves
+# that the model's constructor (`mkChunk`) accepts exactly when the generated checks pass (`generated_chunk_init_range`) and
+# that the model inspects the same window of last rows (`generated_chunk_init_window`).  A changed comparison, a dropped
+# check or a different window breaks a proof obligation.
+
+class Untranslatable(Exception):
+    pass
+
+
+_RANGE_NAMES = {"data_starts_at": "dataStart", "data_ends_at": "dataEnd"}
+
+
+def _cr_expr(e):
+    import ast
+    if isinstance(e, ast.Constant) and isinstance(e.value, int) and not isinstance(e.value, bool):
+        return str(e.value) if e.value >= 0 else f"({e.value})"
+    if isinstance(e, ast.Attribute) and isinstance(e.value, ast.Name) and e.value.id == "self" and e.attr in ("start", "end"):
+        return "start" if e.attr == "start" else "stop"
+    if isinstance(e, ast.Name) and e.id in _RANGE_NAMES:
+        return _RANGE_NAMES[e.id]
+    if isinstance(e, ast.BinOp) and isinstance(e.op, (ast.Add, ast.Sub)):
+        return f"({_cr_expr(e.left)} {'+' if isinstance(e.op, ast.Add) else '-'} {_cr_expr(e.right)})"
+    raise Untranslatable(ast.dump(e)[:80])
+
+
+def _cr_cond(e):
+    import ast
+    if isinstance(e, ast.BoolOp):
+        op = " ∨ " if isinstance(e.op, ast.Or) else " ∧ "
+        return "(" + op.join(_cr_cond(v) for v in e.values) + ")"
+    if isinstance(e, ast.Compare) and len(e.ops) == 1:
+        sym = {ast.Lt: "<", ast.LtE: "≤", ast.Gt: ">", ast.GtE: "≥"}.get(type(e.ops[0]))
+        if sym:
+            return f"({_cr_expr(e.left)} {sym} {_cr_expr(e.comparators[0])})"
+    raise Untranslatable(ast.dump(e)[:80])
+
+
+def _is_range_test(e):
+    """does the test talk about start / end / the data's first time / last end times only?"""
+    try:
+        _cr_cond(e)
+        return True
+    except Untranslatable:
+        return False
+
+
+def _raises_value_error(body):
+    import ast
+    if len(body) != 1 or not isinstance(body[0], ast.Raise) or body[0].exc is None:
+        return False
+    exc = body[0].exc.func if isinstance(body[0].exc, ast.Call) else body[0].exc
+    return isinstance(exc, ast.Name) and exc.id == "ValueError"
+
+
+def _mentions(node, names):
+    import ast
+    for n in ast.walk(node):
+        if isinstance(n, ast.Name) and n.id in names:
+            return True
+        if isinstance(n, ast.Attribute) and isinstance(n.value, ast.Name) and n.value.id == "self" and n.attr in names:
+            return True
+    return False
+
+
+def _translate_chunk_init(src):
+    """-> (window N, Lean term of type Except Strax.Err Unit over start stop nonempty dataStart dataEnd)"""
+    import ast
+    tree = ast.parse(src)
+    cls = next(n for n in tree.body if isinstance(n, ast.ClassDef) and n.name == "Chunk")
+    fn = next(n for n in cls.body if isinstance(n, ast.FunctionDef) and n.name == "__init__")
+    window = [None]
+
+    def block(stmts, inside_data):
+        """checks of a statement list, in order, as a list of Lean conditions / nested blocks"""
+        out = []
+        for st in stmts:
+            if isinstance(st, ast.If) and not st.orelse and _raises_value_error(st.body) and _is_range_test(st.test):
+                if not inside_data and _mentions(st.test, set(_RANGE_NAMES)):
+                    raise Untranslatable("data time used outside the `if len(self.data)` block")
+                out.append(("check", _cr_cond(st.test)))
+            elif (isinstance(st, ast.If) and not st.orelse and isinstance(st.test, ast.Call) and isinstance(st.test.func, ast.Name)
+                  and st.test.func.id == "len" and len(st.test.args) == 1 and ast.unparse(st.test.args[0]) == "self.data"):
+                if inside_data:
+                    raise Untranslatable("nested data block")
+                out.append(("data", block(st.body, True)))
+            elif isinstance(st, ast.Assign) and len(st.targets) == 1 and isinstance(st.targets[0], ast.Name) and st.targets[0].id in _RANGE_NAMES:
+                text = ast.unparse(st.value)
+                if st.targets[0].id == "data_starts_at":
+                    if text != "self.data[0]['time']":
+                        raise Untranslatable("data_starts_at = " + text)
+                else:
+                    m = re.fullmatch(r"strax\.endtime\(self\.data\[-(\d+):\]\)\.max\(\)", text)
+                    if not m:
+                        raise Untranslatable("data_ends_at = " + text)
+                    window[0] = int(m.group(1))
+            elif _mentions(st, {"data_starts_at", "data_ends_at"}) or (
+                    isinstance(st, (ast.If, ast.While, ast.For, ast.Try)) and _mentions(st, {"start", "end"}) and _has_range_compare(st)):
+                # anything else that looks at the range values is outside the translated subset
+                raise Untranslatable("unrecognised use of the range values: " + ast.unparse(st)[:60])
+        return out
+
+    checks = block(fn.body, False)
+    if window[0] is None:
+        raise Untranslatable("no `data_ends_at = strax.endtime(self.data[-N:]).max()`")
+
+    def emit(items, indent):
+        pad = "  " * indent
+        if not items:
+            return pad + "pure ()"
+        (kind, x), rest = items[0], items[1:]
+        if kind == "check":
+            return f"{pad}if {x} then throw Strax.Err.valueError else\n{emit(rest, indent)}"
+        inner = emit(x, indent + 1)
+        if rest:
+            raise Untranslatable("range statements after the data block")
+        return f"{pad}if nonempty then (\n{inner})\n{pad}else pure ()"
+
+    return window[0], emit(checks, 1)
+
+
+def _has_range_compare(st):
+    import ast
+    for n in ast.walk(st):
+        if isinstance(n, ast.Compare) and _is_range_test(n):
+            return True
+    return False
+
+
+def regen(ctx):
+    """Regenerate Generated/ChunkInitRange.lean from the current source of strax.chunk.Chunk.__init__."""
+    from lib.engine import LEAN, REPO
+    out = LEAN / "StraxModel" / "Generated" / "ChunkInitRange.lean"
+    try:
+        window, body = _translate_chunk_init((REPO / "strax" / "chunk.py").read_text())
+    except (Untranslatable, StopIteration, SyntaxError) as e:
+        ctx.translator["Chunk.__init__ range checks"] = f"untranslatable: {e}"
+        ctx.violation("translator:chunk_init_range", "translator", None, {"reason": str(e)},
+                      "translator regenerates Generated.chunkInitRange from the source of Chunk.__init__", False)
+        return
+    ctx.translator["Chunk.__init__ range checks"] = "translated"
+    text = ("-- GENERATED by checks/props/c12.py:regen from /repo/strax/chunk.py (Chunk.__init__: range checks). Do not edit.\n"
+            "import StraxModel.Model.Basic\n"
+            "namespace Strax.Generated\n"
+            "/-- N of `strax.endtime(self.data[-N:]).max()` -/\n"
+            f"def chunkInitWindow : Nat := {window}\n"
+            "/-- `nonempty` = `len(self.data) != 0`, `dataStart` = `self.data[0]['time']`, `dataEnd` = `strax.endtime(self.data[-N:]).max()` -/\n"
+            "def chunkInitRange (start stop : Int) (nonempty : Bool) (dataStart dataEnd : Int) : Except Strax.Err Unit :=\n"
+            f"{body}\n"
+            "end Strax.Generated\n")
+    if not out.exists() or out.read_text() != text:
+        out.write_text(text)
 
 # epoch-scale times: ns since 1970 of late 2023, int64-safe, far above 2**53 and odd — float64 cannot hold it exactly
 # (the spacing of doubles there is 256 ns), so integer arithmetic replaced by floats shows up as off-by-one decisions
